@@ -63,6 +63,50 @@ def run_update(ct_ms, start, steps, exact):
     return bad
 
 
+JITTERS = [0.5, 0.1, 1.0]
+RANDS = [0.0, 0.25, 0.5, 0.999]
+
+
+def run_update_jitter(ct_ms, start, jitter, steps):
+    """steps: sequence of (reading relative to the scheduled time, value random.random() returns)."""
+    from tornado import ioloop
+    pc = ioloop.PeriodicCallback(lambda: None, ct_ms, jitter=jitter)
+    pc._next_timeout = start
+    p = ct_ms / 1000.0
+    bad = []
+    real = ioloop.random.random
+    try:
+        for i, (r, rnd) in enumerate(steps):
+            ioloop.random.random = lambda rnd=rnd: rnd
+            old = pc._next_timeout
+            cur = old + RELV[r] * p
+            pc._update_next(cur)
+            new = pc._next_timeout
+            tol = 8 * ulp(max(abs(new), abs(cur)))
+            if not new > old:
+                bad.append(("not-later-than-previous", "step %d (%s, random %.3f): next %r -> %r" % (i, r, rnd, old, new)))
+            if RELV[r] >= 0 and new < cur - tol:
+                bad.append(("before-current-time", "step %d (%s, random %.3f): current %r, next %r" % (i, r, rnd, cur, new)))
+            if RELV[r] >= 0 and new > cur + p * (1 + jitter / 2) + tol:
+                bad.append(("more-than-one-jittered-period-ahead", "step %d (%s, random %.3f): current %r, next %r"
+                            % (i, r, rnd, cur, new)))
+            if bad:
+                break
+    finally:
+        ioloop.random.random = real
+    return bad
+
+
+class Aw:
+    """an awaitable that is neither a coroutine object nor a Future"""
+
+    def __init__(self, f):
+        self.f = f
+
+    def __await__(self):
+        return self.f.__await__()
+
+
 # ---------------------------------------------------------------- (b)
 EVENTS = ["timer", "complete", "stop", "start"]
 
@@ -104,7 +148,7 @@ def run_loop(ch, kind, depth, period_ms=1000.0):
                 overlaps.append(w.loop.vtime)
             f = asyncio.Future()
             active.append(f)
-            return f
+            return Aw(f) if kind == "aw" else f
         pc = PeriodicCallback(sync_cb if kind == "sync" else coro_cb,
                               datetime.timedelta(microseconds=2500) if td else period_ms)
         origins.append(w.loop.vtime)
@@ -206,6 +250,8 @@ class C39(Check):
         parts = [("upd", i, ex, K) for ex in (True, False) for i in range(len(EXACT) if ex else len(EPOCHS))]
         parts += [("loop", kind, D) for kind in ("sync", "coro")]
         parts += [("loop", kind, D - 2) for kind in ("sync-td", "coro-td")]
+        parts += [("loop", "aw", D - 1)]       # the callback returns an object with __await__
+        parts += [("updj", i, ji) for i in range(3) for ji in range(len(JITTERS))]
         return parts
 
     def run_partition(self, part, tier, st):
@@ -229,6 +275,24 @@ class C39(Check):
             if len(st.samples) < 1:
                 st.sample({"callback_time_ms": ct, "start": start, "example_readings": ["p/2", "5p/2", "-p/2"], "exact": exact})
             return
+        if part[0] == "updj":
+            _, i, ji = part
+            ct, start = EXACT[i]
+            jitter = JITTERS[ji]
+            K = 2 if tier == "quick" else 3
+            alphabet = [(r, rnd) for r in REL if RELV[r] >= 0 for rnd in RANDS]
+            for n in range(1, K + 1):
+                for steps in itertools.product(alphabet, repeat=n):
+                    bad = run_update_jitter(ct, start, jitter, steps)
+                    st.ev()
+                    st.transitions += n
+                    key = h(("j", ct, start, jitter, steps))
+                    st.states.add(key)
+                    st.nontrivial.add(key)
+                    for sig, msg in bad:
+                        st.violation("update-jitter:%s" % sig, "callback_time=%r ms jitter=%r readings %r: %s" % (ct, jitter, steps, msg),
+                                     {"kind": "updj", "ct": ct, "start": start, "jitter": jitter, "steps": [list(x) for x in steps]})
+            return
         _, kind, D = part
 
         def on_exec(ch, o):
@@ -248,6 +312,8 @@ class C39(Check):
     def replay(self, case):
         if case["kind"] == "upd":
             return repr(run_update(case["ct"], case["start"], case["steps"], case["exact"]))
+        if case["kind"] == "updj":
+            return repr(run_update_jitter(case["ct"], case["start"], case["jitter"], [tuple(x) for x in case["steps"]]))
         o = run_loop(devex.Chooser(case["choices"]), case["cb"], case["depth"])
         return "%r\nverdict %r" % (o, judge_loop(o))
 
